@@ -92,21 +92,46 @@ def parse_dtype_string(s: str) -> DType:
     )
 
 
-def parse_dtype_node(node: ast.AST) -> DType:
-    """np.dtype(<literal>) / literal string / list of (name, spec) tuples."""
+def parse_dtype_node(node: ast.AST, btype=None) -> DType:
+    """np.dtype(<literal>) / literal string / list of (name, spec) tuples / <codec>.btype / (base, shape).
+    btype: name -> DType of the codec object bound to that name (for `f32.btype` inside another dtype), or None."""
+    import dataclasses
     if isinstance(node, ast.Call) and norm(node.func) in ("np.dtype", "numpy.dtype", "dtype") and node.args:
-        return parse_dtype_node(node.args[0])
+        return parse_dtype_node(node.args[0], btype)
     if isinstance(node, ast.Constant) and isinstance(node.value, str):
         return parse_dtype_string(node.value)
+    if isinstance(node, ast.Attribute) and node.attr in ("btype", "base") and btype is not None:
+        inner = node.value
+        if node.attr == "base" and isinstance(inner, ast.Attribute) and inner.attr == "btype":
+            inner = inner.value      # X.btype.base: the scalar type of X's items
+            d = btype(inner.id) if isinstance(inner, ast.Name) else None
+            if d is not None and d.kind != "V":
+                return dataclasses.replace(d, shape=(), text=norm(node))
+        elif isinstance(inner, ast.Name):
+            d = btype(inner.id)
+            if d is not None:
+                return dataclasses.replace(d, text=norm(node))
+    if isinstance(node, ast.Tuple) and len(node.elts) == 2:
+        # (base, n) / (base, (a, b)): a sub-array of the base type
+        base = parse_dtype_node(node.elts[0], btype)
+        try:
+            shp = ast.literal_eval(node.elts[1])
+        except Exception:
+            raise AnalysisError(f"dtype expression not understood: {norm(node)}")
+        shp = tuple(shp) if isinstance(shp, (tuple, list)) else (int(shp),)
+        if base.kind != "V":
+            return dataclasses.replace(base, shape=shp + tuple(base.shape), text=norm(node))
     if isinstance(node, ast.List):
         fields = []
         for el in node.elts:
             if not (isinstance(el, ast.Tuple) and len(el.elts) >= 2 and isinstance(el.elts[0], ast.Constant)):
                 raise AnalysisError(f"structured dtype element not understood: {norm(el)}")
-            sub = parse_dtype_node(el.elts[1])
+            sub = parse_dtype_node(el.elts[1], btype)
             if len(el.elts) == 3:
                 shp = ast.literal_eval(el.elts[2])
-                sub.shape = tuple(shp) if isinstance(shp, (tuple, list)) else (int(shp),)
+                import dataclasses as _dc
+                shp = tuple(shp) if isinstance(shp, (tuple, list)) else (int(shp),)
+                sub = _dc.replace(sub, shape=shp + (tuple(sub.shape) if sub.text.endswith("btype") else ()))
             fields.append((el.elts[0].value, sub))
         return DType(
             kind="V",
@@ -466,7 +491,7 @@ class Program:
             return None
         key = (dm.name, id(node))
         if key not in self._dtype_cache:
-            self._dtype_cache[key] = parse_dtype_node(node.args[0])
+            self._dtype_cache[key] = parse_dtype_node(node.args[0], btype=lambda nm, _dm=dm: (self.codec(_dm, nm) or (None, None))[1] if nm != name else None)
         # canonical id: defining module + first name bound to that node
         cname = next((n for n, v in dm.assigns.items() if v is node), name)
         return (f"{dm.name}.{cname}", self._dtype_cache[key])
